@@ -8,6 +8,10 @@ RULE = ('reader layer (Coq model vs Reader: stream pointer and read() call log a
         'LibYAML: two of its 16 KiB blocks), independent of how much follows; a malformed document at position j: the j preceding documents are delivered first; closing the load_all '
         'generator after one document disposes the loader. non-trivial = every stream; distinct by (documents, schedule, api, back-end)')
 
+def describe(c):
+    tot = sum(len(d) for d in c[0])
+    return dict(n_docs=len(c[0]), first_doc=c[0][0][:60], total_units=tot, sizes=c[1][:6], binary=c[2], api=c[3], backend=c[4], malformed_at=c[5], case=(c if tot < 60000 else None))
+
 def run(ctx):
     ctx.rule = RULE
     ctx.regen(); ctx.prove()
@@ -17,15 +21,20 @@ def run(ctx):
     for i in range(ctx.n(250, 3000)):
         n = rng.choice([2, 3, 10, 60, 400])
         body = rng.choice(bodies) if rng.random() < 0.7 else None
-        docs = ['---\n' + (body if body is not None else rng.choice(bodies)) + '\n' for _ in range(n)]
+        dots = rng.random() < 0.35                                  # documents closed by an explicit '...'
+        docs = ['---\n' + (body if body is not None else rng.choice(bodies)) + ('\n...\n' if dots else '\n') for _ in range(n)]
+        if dots and rng.random() < 0.3:                              # a long comment between '...' and the next '---': one long stretch without a token
+            j = rng.randrange(1, len(docs)); docs[j] = '# ' + 'c' * rng.choice([9000, 20000, 40000]) + '\n' + docs[j]
         if sum(len(d) for d in docs) > 400000: docs = docs[:40]
         bad_at = None
         if rng.random() < 0.25:
-            bad_at = rng.randrange(1, len(docs)); docs[bad_at] = rng.choice(['---\n[a, b\n', '---\n{a: b: c}\n', '---\n"unterminated\n', '---\na: b: c\n'])
+            bad_at = rng.randrange(1, len(docs))
+            if dots and rng.random() < 0.7: docs[bad_at] = rng.choice(['@bad\n', '%YAML x\n---\na\n', '"unterminated\n', '`x\n', 'plain\n', '%TAG !e!\n---\na\n', "'open\n"])     # the error follows '...' directly
+            else: docs[bad_at] = rng.choice(['---\n[a, b\n', '---\n{a: b: c}\n', '---\n"unterminated\n', '---\na: b: c\n'])
             docs = docs[:bad_at + 1] + docs[bad_at + 1:][:3]
         sizes = rng.choice([[], [1] * 200, [rng.randint(1, 9) for _ in range(300)], [4095, 1, 4096], [4097], [100] * 50])
         cases.append([docs, sizes, rng.random() < 0.5, rng.choice(['load_all', 'load_all', 'compose_all', 'parse']), rng.choice(['py', 'py', 'c']), bad_at])
-    res = corr.direct(ctx, 'c18', cases, describe=lambda c: dict(n_docs=len(c[0]), first_doc=c[0][0][:60], total_units=sum(len(d) for d in c[0]), sizes=c[1][:6], binary=c[2], api=c[3], backend=c[4], malformed_at=c[5]), label='lazy')
+    res = corr.direct(ctx, 'c18', cases, describe=describe, label='lazy')
     w = {}
     for c, r in zip(cases, res):
         if isinstance(r, dict) and 'worst' in r: w[c[4]] = max(w.get(c[4], 0), r['worst'])
@@ -36,4 +45,6 @@ def run(ctx):
 def replay(ctx, path):
     d = json.load(open(path)); ctx.rule = RULE
     ctx.regen(); ctx.prove()
+    c = d.get('case', {}).get('case')
+    if c: corr.direct(ctx, 'c18', [c], describe=describe)
     return ctx.finish()
